@@ -121,10 +121,11 @@ class FakeRU(object):
 
 
 class FakeRM(object):
-    def __init__(self, fault, launcher):
-        self.fault, self.launcher = fault, launcher
+    def __init__(self, fault, launcher, fault_uid=None):
+        self.fault, self.launcher, self.fault_uid = fault, launcher, fault_uid
     def find_launcher(self, task):
-        if self.fault == 'no_launcher':
+        if self.fault == 'no_launcher' and \
+           self.fault_uid in (None, task['uid']):
             return None, None
         return self.launcher, 'FORK'
     def get_launcher(self, name):
@@ -157,7 +158,8 @@ class Sess(object):
     rcfg = RCfg()
 
 
-def mk_popen(env, fault='none', watch_iters=3):
+def mk_popen(env, fault='none', watch_iters=3, fault_uid=None):
+    # fault_uid: the fault hits only that task (no_launcher / script faults)
     ex = object.__new__(m_popen.Popen)
     ex._uid   = 'agent_executing.0000'
     ex._log   = Null()
@@ -175,7 +177,7 @@ def mk_popen(env, fault='none', watch_iters=3):
     launcher = object.__new__(m_fork.Fork)
     launcher._log = Null()
     launcher.name = 'FORK'
-    ex._rm = FakeRM(fault, launcher)
+    ex._rm = FakeRM(fault, launcher, fault_uid)
     ex.events = []      # ('publish', channel, [uids]) / ('advance', uid, state, push, exit_code, target_state)
 
     def _publish(channel, msg, **kw):
@@ -197,7 +199,8 @@ def mk_popen(env, fault='none', watch_iters=3):
 
     def _script(name):
         def _f(*a, **k):
-            if fault == name:
+            uids = [x['uid'] for x in a if isinstance(x, dict) and 'uid' in x]
+            if fault == name and (fault_uid is None or fault_uid in uids):
                 raise RuntimeError('cannot create %s' % name)
             return '/sbox/x.sh', '/sbox/x.sh'
         return _f
